@@ -33,6 +33,8 @@ def gen_spec(rng: random.Random, big: bool) -> dict:
     objs = {"P": ["pm1", "pm10"] + (["pm"] if rng.random() < 0.4 else [])}
     if nctx == 3 and rng.random() < 0.5:
         objs["PA"] = ["pm1"]
+    # every kind of publisher the API offers: RPC object / instrument with signals, task (make_task), object without signals
+    kinds = {f"{c}.{o}": rng.choice(["obj", "obj", "task", "task", "inst", "plain"]) for c, os_ in objs.items() for o in os_}
     nrcv = rng.randint(2, 5)
     rcvs = [rng.choice(ctxs[1:] if rng.random() < 0.8 else ctxs) for _ in range(nrcv)]
     live_ctx = set(ctxs)
@@ -127,7 +129,7 @@ def gen_spec(rng: random.Random, big: bool) -> dict:
                 lanes.append(ops)
         if main or lanes:
             steps.append({"main": main, "lanes": lanes})
-    return {"ctxs": ctxs, "objs": objs, "rcvs": rcvs, "links": links, "steps": steps, "policy": rng.choice(["weighted", "pct", "pct"])}
+    return {"ctxs": ctxs, "objs": objs, "kinds": kinds, "rcvs": rcvs, "links": links, "steps": steps, "policy": rng.choice(["weighted", "pct", "pct"])}
 
 
 # ---------------------------------------------------------------------------
@@ -154,9 +156,38 @@ def run_c08(seed, spec: dict, change_points=None, trace_handler: bool = False, p
         from harness import detsched as D
         random.seed(f"c08:{seed}")
 
-        class Pub(QMI_RpcObject):
+        from qmi.core.instrument import QMI_Instrument
+        from qmi.core.task import QMI_Task
+
+        class Pub(QMI_RpcObject):                 # plain RPC object with signals
             sa = QMI_Signal([int])
-            sb = QMI_Signal([int])
+            sa2 = QMI_Signal([int])
+
+        class PubInstr(QMI_Instrument):           # instrument with signals
+            sa = QMI_Signal([int])
+            sa2 = QMI_Signal([int])
+
+        class PubTask(QMI_Task):                  # task: signals declared on the task class, registered as a QMI_TaskRunner
+            sa = QMI_Signal([int])
+            sa2 = QMI_Signal([int])
+
+            def run(self):
+                pass
+
+        class Plain(QMI_RpcObject):               # object without signals (subscriptions by name are still possible)
+            pass
+
+        kinds = spec.get("kinds") or {}
+
+        def make(c, o):
+            k = kinds.get(f"{c}.{o}", "obj")
+            if k == "task":
+                return ctxs[c].make_task(o, PubTask)
+            if k == "inst":
+                return ctxs[c].make_instrument(o, PubInstr)
+            if k == "plain":
+                return ctxs[c].make_rpc_object(o, Plain)
+            return ctxs[c].make_rpc_object(o, Pub)
 
         tr = PC.Tracer(w)
         box["tr"] = tr
@@ -179,7 +210,7 @@ def run_c08(seed, spec: dict, change_points=None, trace_handler: bool = False, p
             proxies = {}
             for c, os_ in spec["objs"].items():
                 for o in os_:
-                    proxies[(c, o)] = ctxs[c].make_rpc_object(o, Pub)
+                    proxies[(c, o)] = make(c, o)
             rcvs = []
             for cn in spec["rcvs"]:
                 r = QMI_SignalReceiver(max_queue_length=100000)
@@ -202,6 +233,18 @@ def run_c08(seed, spec: dict, change_points=None, trace_handler: bool = False, p
                                 op[0] == "sub" and op[2] == c and op[3] == o and tr.sid(op[4]) == sg
                                 for lane in step["lanes"] for op in lane):
                             return ":remove-racing-subscribe"
+                    return ""
+
+                def tag_stale(pname, ob, sg):
+                    """':stale-removal-notice' iff the leaked key belongs to an object that was removed AND created again in
+                    this very step while a lane re-subscribed to exactly that (object, signal): the removal notice of the old
+                    incarnation can meet the pending request for the new one"""
+                    recreated = {(m[1], m[2]) for m in step["main"] if m[0] == "mk"}
+                    for (_, c, o) in racing_rm:
+                        if c == pname and tr.oid(o) == ob and (c, o) in recreated and any(
+                                op[0] == "sub" and op[2] == c and op[3] == o and tr.sid(op[4]) == sg
+                                for lane in step["lanes"] for op in lane):
+                            return ":stale-removal-notice"
                     return ""
                 tag = ""
                 tabs = {}
@@ -244,7 +287,7 @@ def run_c08(seed, spec: dict, change_points=None, trace_handler: bool = False, p
                                                     f"step {si}: {a} has receivers {loc_a[(2 * cp, ob, sg)]} on {p}.obj{ob}.sig{sg} "
                                                     f"but {p} has no remote subscription for {a}")
                             if has_remote and not has_local:
-                                raise StepViolation("publisher-transmits-but-nobody-listens" + tag,
+                                raise StepViolation("publisher-transmits-but-nobody-listens" + (tag or tag_stale(p, ob, sg)),
                                                     f"step {si}: {p} keeps {a} as remote subscriber of obj{ob}.sig{sg} but {a} has no receiver")
                 for p in sorted(live):
                     (_, rem_p) = tabs[p]
@@ -368,7 +411,7 @@ def run_c08(seed, spec: dict, change_points=None, trace_handler: bool = False, p
                         elif m[0] == "mk":
                             (_, c, o) = m
                             if proxies.get((c, o)) is None and c in live:
-                                proxies[(c, o)] = ctxs[c].make_rpc_object(o, Pub)
+                                proxies[(c, o)] = make(c, o)
                         elif m[0] == "connect":
                             (_, a, p) = m
                             if a in live and p in live and (a, p) not in conns:
@@ -411,7 +454,16 @@ def run_c08(seed, spec: dict, change_points=None, trace_handler: bool = False, p
                                 expected.add((r, pc, pn, sg))
                     for m in step["main"]:
                         if m[0] == "rm":
-                            expected = {e for e in expected if not (e[1] == m[1] and e[2] == m[2])}
+                            keep = set()
+                            if any(mm[0] == "mk" and mm[1:] == m[1:] for mm in step["main"]):
+                                # removed and created again within this step: a subscribe that returned may have been served by
+                                # the new incarnation; the table of the receiver's own context says whether it was
+                                for (op, exc) in results:
+                                    if op[0] == "sub" and exc is None and op[2] == m[1] and op[3] == m[2] and spec["rcvs"][op[1]] in live:
+                                        loc_a = tr.real_tables(tr.cid(spec["rcvs"][op[1]]))[0]
+                                        if op[1] in loc_a.get((2 * tr.cid(op[2]), tr.oid(op[3]), tr.sid(op[4])), []):
+                                            keep.add((op[1], op[2], op[3], op[4]))
+                            expected = {e for e in expected if not (e[1] == m[1] and e[2] == m[2]) or e in keep}
                         elif m[0] == "disconnect":
                             expected = {e for e in expected if not (spec["rcvs"][e[0]] == m[1] and e[1] == m[2])}
                         elif m[0] == "stop":
@@ -468,6 +520,15 @@ RACE_SPEC = {"ctxs": ["P", "PA"], "objs": {"P": ["pm1"]}, "rcvs": ["PA", "PA"],
                        {"main": [], "lanes": [[["sub", 1, "P", "pm1", "sa"]]]}],
              "policy": "pct"}
 
+# the targeted history for the stale removal notice: the publisher is removed and created again by one thread while the
+# subscriber gives its subscription up and subscribes again; the notice of the old incarnation (sent late, when the removing
+# thread is pre-empted between the lock section of handle_object_removed and send_message) can meet the pending new request
+STALE_SPEC = {"ctxs": ["P", "PA"], "objs": {"P": ["pm1"]}, "rcvs": ["PA"],
+              "steps": [{"main": [], "lanes": [[["sub", 0, "P", "pm1", "sa"]]]},
+                        {"main": [["rm", "P", "pm1"], ["mk", "P", "pm1"]],
+                         "lanes": [[["unsub", 0, "P", "pm1", "sa"], ["sub", 0, "P", "pm1", "sa"]]]}],
+              "policy": "weighted"}
+
 
 class C08(Prop):
     id = "C08"
@@ -480,6 +541,10 @@ class C08(Prop):
         "a context that stops while one of *its own* threads is inside subscribe is outside the property's quantifier (DESIGN §7c)",
         "sendall fails only when the other end has closed (simulated network); request ids are fresh counters; a KeyError of "
         "_handle_subscription_reply (unknown request id) is a contained no-op",
+        "quiescent consistency (both tables agree once nothing is in flight and no stop is in progress, QuiescentConsistencySettled) is "
+        "refuted in Lean for the model of the current source (quiescent_consistency_false: stale removal notice, known finding) and not "
+        "proved for the repaired one; it is checked per history by the oracle (table iff in both directions, probes, transmitted peers); "
+        "termination of the internal activity (a decreasing measure) is not mechanised: subscribe_terminates covers states at rest",
         "the deterministic scheduler, the simulated network and the tap layer (harness/props/pubsub_common.py)",
     ]
 
@@ -585,6 +650,7 @@ class C08(Prop):
         fixed = []
         for (short, long_) in (("pm1", "pm10"), ("pm", "pm1"), ("pm", "pm10")):
             fixed.append({"ctxs": ["P", "PA", "B"], "objs": {"P": [short, long_], "PA": [long_]}, "rcvs": ["PA", "B", "B", "P"],
+                          "kinds": {f"P.{short}": "task", f"P.{long_}": "inst", f"PA.{long_}": "task"},
                           "steps": [{"main": [], "lanes": [[["sub", 0, "P", long_, "sa"], ["sub", 0, "P", short, "sa"], ["sub", 0, "P", long_, "sa2"]],
                                                            [["sub", 1, "P", long_, "sa"], ["sub", 2, "PA", long_, "sa"], ["sub", 3, "P", long_, "sa2"]]]},
                                     {"main": [["rm", "P", short]], "lanes": []},
@@ -598,6 +664,16 @@ class C08(Prop):
         # targeted sweep of the subscribe-vs-removal window (every run; this is how §7(l) is re-found)
         base = ctx.rng.randrange(1 << 20)
         self._race_sweep(ctx, res, [base + i for i in range(ctx.scale(16, 40))])
+        # targeted schedules for the stale removal notice (removal + re-creation in one thread racing with unsubscribe +
+        # subscribe in another): fixed seeds first (the window is hit by about 1.5% of the weighted schedules), then seeded ones
+        n0 = len(res.failures)
+        for lo in range(0, ctx.scale(96, 400), 32):
+            self._run_batch(ctx, [(s, STALE_SPEC, None, False) for s in range(lo, lo + 32)], res, "stale_notice")
+            if len(res.failures) > n0:
+                break
+        else:
+            self._run_batch(ctx, [(ctx.rng.randrange(1 << 30), STALE_SPEC, None, False) for _ in range(ctx.scale(32, 200))],
+                            res, "stale_notice")
         return res
 
     def search(self, ctx: Ctx, broken) -> Result:
